@@ -35,13 +35,14 @@ from pyvc.values import (Unsupported, VDict, VList, VRange, VRec, VRef, VSet, VT
 
 __file_spec__ = [common_c.__file__, __file__]
 
-DICT_ORDER_INVARIANT = True   # an insertion-ordered dict lists exactly its keys, each once (engine.assume_dict_wf)
+# (the engine's DICT_ORDER_INVARIANT is NOT used: its bijection axioms order <-> rank form a matching loop; what is needed of
+#  it is carried by the explicit invariants keys_ok / graph_pos below and proved like any other invariant)
 SET_CARD_FUNCTION = True      # len(set of ints) is the uninterpreted, non-negative function len.set of the set value
 
 CLASSES = dict(common_c.CLASSES)
 CLASSES.update({
     "LpSolver": {"kind": "object", "fields": {"msg": "bool"}},
-    "LpVariable": {"kind": "object", "fields": {"name": "str", "lo": "int", "hi": "int", "cat": "str", "varValue": "int"}},
+    "LpVariable": {"kind": "object", "fields": {"name": "str", "lo": "int", "hi": "int", "integer": "bool", "varValue": "int"}},
     "LpMono": {"kind": "record", "fields": {"var": "LpVariable", "coef": "int"}},
     "LpExpr": {"kind": "record", "fields": {"kind": "int", "var": "LpVariable", "coef": "int", "var2": "LpVariable",
                                             "items": "list[LpVariable]", "terms": "list[rec[LpMono]]"}},
@@ -142,11 +143,14 @@ def _LpProblem(e, args, kw, node, st):
 
 
 def _LpVariable(e, args, kw, node, st):
-    """pulp.LpVariable(name, lowBound, upBound, cat): a new variable object (the value is unset until a solver ran)"""
+    """pulp.LpVariable(name, lowBound, upBound, cat): a new variable object (the value is unset until a solver ran);
+    the category is kept as the flag `integer` (cat == LpInteger)"""
     if len(args) != 4 or kw or not (is_int(args[1]) and is_int(args[2])):
         raise Unsupported("LpVariable: only LpVariable(name, int, int, cat) is modelled")
+    if args[3] not in ("Integer", "Continuous"):
+        raise Unsupported("LpVariable: category must be the constant LpInteger or LpContinuous")
     v = _alloc(e, st, "LpVariable")
-    for f, x in zip(("name", "lo", "hi", "cat"), args):
+    for f, x in zip(("name", "lo", "hi", "integer"), (args[0], args[1], args[2], args[3] == "Integer")):
         e.heap_write(st, v, f, to_z3(x))
     return v
 
@@ -226,7 +230,7 @@ def _iadd(e, args, kw, node, st):
 
 _iadd.writes = ["LpProblem.cons", "LpProblem.objective", "LpProblem.has_objective"]
 
-T_SOLVER = "implies(problem.status == 1, t_solver(problem))"
+T_SOLVER = "implies(problem.status == 1 and all_integer(problem), t_solver(problem))"
 
 
 def _solve(e, args, kw, node, st):
@@ -298,31 +302,41 @@ def in_bounds(v):
 
 
 @spec
-def expr_in_bounds(x):
-    return (implies(x.kind == 1 or x.kind == 2, in_bounds(x.var)) and implies(x.kind == 2, in_bounds(x.var2))
-            and implies(x.kind == 3, forall(lambda q: implies(0 <= q and q < len(x.items), in_bounds(x.items[q]))))
-            and implies(x.kind == 4, forall(lambda q: implies(0 <= q and q < len(x.terms), in_bounds(x.terms[q].var)))))
+def all_integer(P):
+    """every variable of the problem is of category Integer (only then does the model's `varValue: int` describe the
+    solver's values; T-solver is claimed for such problems only)"""
+    return (forall(lambda k: implies(0 <= k and k < len(P.cons) and (P.cons[k].expr.kind == 1 or P.cons[k].expr.kind == 2), P.cons[k].expr.var.integer))
+            and forall(lambda k: implies(0 <= k and k < len(P.cons) and P.cons[k].expr.kind == 2, P.cons[k].expr.var2.integer))
+            and forall(lambda k, q: implies(0 <= k and k < len(P.cons) and P.cons[k].expr.kind == 3 and 0 <= q and q < len(P.cons[k].expr.items),
+                                            P.cons[k].expr.items[q].integer))
+            and forall(lambda k, q: implies(0 <= k and k < len(P.cons) and P.cons[k].expr.kind == 4 and 0 <= q and q < len(P.cons[k].expr.terms),
+                                            P.cons[k].expr.terms[q].var.integer))
+            and implies(P.has_objective and (P.objective.kind == 1 or P.objective.kind == 2), P.objective.var.integer)
+            and implies(P.has_objective and P.objective.kind == 2, P.objective.var2.integer)
+            and implies(P.has_objective and P.objective.kind == 3, forall(lambda q: implies(0 <= q and q < len(P.objective.items), P.objective.items[q].integer)))
+            and implies(P.has_objective and P.objective.kind == 4, forall(lambda q: implies(0 <= q and q < len(P.objective.terms), P.objective.terms[q].var.integer))))
 
 
 @spec
-def con_value(c, k):
-    """value of the left-hand side of constraint c = cons[k] under the current variable values (two-variable sums and sums
-    of lists of variables; the running sum esum(k, n) is characterised by lemma esum_definition)"""
-    return ite(c.expr.kind == 2, c.expr.var.varValue + c.expr.var2.varValue, esum(k, len(c.expr.items)))
-
-
-@spec
-def con_sat(c, k):
-    return implies(c.expr.kind == 2 or c.expr.kind == 3,
-                   ite(c.sense == -1, con_value(c, k) <= c.rhs, ite(c.sense == 0, con_value(c, k) == c.rhs, con_value(c, k) >= c.rhs)))
+def rel(sense, lhs, rhs):
+    """lhs <sense> rhs:  -1: <=,  0: ==,  +1: >="""
+    return implies(sense == -1, lhs <= rhs) and implies(sense == 0, lhs == rhs) and implies(sense == 1, lhs >= rhs)
 
 
 @spec
 def t_solver(P):
     """T-solver: the values reported with status Optimal are integers within the variables' bounds and satisfy every
-    constraint that was added"""
-    return (forall(lambda k: implies(0 <= k and k < len(P.cons), con_sat(P.cons[k], k) and expr_in_bounds(P.cons[k].expr)))
-            and implies(P.has_objective, expr_in_bounds(P.objective)))
+    constraint that was added (two-variable sums; sums of lists of variables through the running sum esum(k, n) of
+    constraint k, characterised by lemma esum_definition)"""
+    return (forall(lambda k: implies(0 <= k and k < len(P.cons) and P.cons[k].expr.kind == 2,
+                                     rel(P.cons[k].sense, P.cons[k].expr.var.varValue + P.cons[k].expr.var2.varValue, P.cons[k].rhs)
+                                     and in_bounds(P.cons[k].expr.var) and in_bounds(P.cons[k].expr.var2)))
+            and forall(lambda k: implies(0 <= k and k < len(P.cons) and P.cons[k].expr.kind == 3,
+                                         rel(P.cons[k].sense, esum(k, len(P.cons[k].expr.items)), P.cons[k].rhs)))
+            and forall(lambda k, q: implies(0 <= k and k < len(P.cons) and P.cons[k].expr.kind == 3 and 0 <= q and q < len(P.cons[k].expr.items),
+                                            in_bounds(P.cons[k].expr.items[q])))
+            and implies(P.has_objective and P.objective.kind == 4,
+                        forall(lambda q: implies(0 <= q and q < len(P.objective.terms), in_bounds(P.objective.terms[q].var)))))
 
 
 @spec
@@ -355,11 +369,24 @@ def occurs_at(P, v, k, q):
 
 
 @spec
+def listed(v, VL, POS):
+    return 0 <= POS[ident(v)] and POS[ident(v)] < len(VL) and VL[POS[ident(v)]] is v
+
+
+@spec
+def expr_listed(x, VL, POS):
+    """every variable of the expression x is listed in VL (at its position POS[identity])"""
+    return (implies(x.kind == 1 or x.kind == 2, listed(x.var, VL, POS)) and implies(x.kind == 2, listed(x.var2, VL, POS))
+            and implies(x.kind == 3, forall(lambda q: implies(0 <= q and q < len(x.items), listed(x.items[q], VL, POS))))
+            and implies(x.kind == 4, forall(lambda q: implies(0 <= q and q < len(x.terms), listed(x.terms[q].var, VL, POS)))))
+
+
+@spec
 def variables_contract(P, VL, POS, WK, WQ):
-    """VL lists every variable that occurs in the problem (at its position POS[identity]), each once, and only those
-    (VL[p] occurs at place (WK[p], WQ[p]))"""
-    return (forall(lambda v, k, q: implies(occurs_at(P, v, k, q), 0 <= POS[ident(v)] and POS[ident(v)] < len(VL) and VL[POS[ident(v)]] is v),
-                   sorts={"v": "LpVariable"})
+    """VL lists every variable that occurs in the objective or in a constraint (at its position POS[identity]), each once,
+    and only those (VL[p] occurs at place (WK[p], WQ[p]))"""
+    return (forall(lambda k: implies(0 <= k and k < len(P.cons), expr_listed(P.cons[k].expr, VL, POS)))
+            and implies(P.has_objective, expr_listed(P.objective, VL, POS))
             and forall(lambda p: implies(0 <= p and p < len(VL), POS[ident(VL[p])] == p and occurs_at(P, VL[p], WK[p], WQ[p]))))
 
 
@@ -374,6 +401,19 @@ def graph_ok(G, R):
     """keys and neighbours are region indices, neighbours cross, the relation is symmetric"""
     return (forall(lambda a: implies(a in G, 0 <= a and a < len(R)))
             and forall(lambda a, b: implies(a in G and b in G[a], 0 <= b and b < len(R) and cross(R, a, b) and b in G and a in G[b])))
+
+
+@spec
+def keys_ok(D):
+    """the key list of an insertion-ordered dict lists keys of the dict"""
+    return (len(list(D.keys())) >= 0
+            and forall(lambda p: implies(0 <= p and p < len(list(D.keys())), list(D.keys())[p] in D)))
+
+
+@spec
+def graph_pos(G, GPOS):
+    """ghost position of every key in the key list (instantiated only where a position is named)"""
+    return forall(lambda a: implies(a in G, 0 <= GPOS[a] and GPOS[a] < len(list(G.keys())) and list(G.keys())[GPOS[a]] == a), pats=["GPOS[a]"])
 
 
 @spec
@@ -407,8 +447,8 @@ def parses_as(nm, a, b):
 
 @spec
 def var_ok(v, GI, GJ, VRO, RBV, R):
-    """v is the decision variable x_{GI[v]}_{GJ[v]}: name, bounds 0..1, integer; the two dictionaries know it"""
-    return (parses_as(v.name, GI[ident(v)], GJ[ident(v)]) and v.lo == 0 and v.hi == 1 and v.cat == "Integer"
+    """v is the decision variable of cell (GI[v], GJ[v]): bounds 0..1, integer; the two dictionaries know it (its name: vars_named)"""
+    return (v.lo == 0 and v.hi == 1 and v.integer
             and (GI[ident(v)], GJ[ident(v)]) in VRO and VRO[(GI[ident(v)], GJ[ident(v)])] is v
             and v in RBV and RBV[v] == R[GI[ident(v)]])
 
@@ -426,6 +466,14 @@ def vars_fwd(A1, A2, GI, GJ, VRO, RBV, R, i, j, M):
     return forall(lambda v: implies(A1 <= ident(v) and ident(v) < A2,
                                     var_ok(v, GI, GJ, VRO, RBV, R) and GJ[ident(v)] < M and before(GI[ident(v)], GJ[ident(v)], i, j)),
                   sorts={"v": "LpVariable"})
+
+
+@spec
+def vars_named(A1, A2, GI, GJ):
+    """every variable created since A1 carries the name x_<row>_<column>, in the form the read-back uses (parses_as).
+    (A clause of its own, instantiated only where a name is looked at: every instance brings string-sorted terms.)"""
+    return forall(lambda v: implies(A1 <= ident(v) and ident(v) < A2, parses_as(v.name, GI[ident(v)], GJ[ident(v)])),
+                  sorts={"v": "LpVariable"}, pats=["v.name"])
 
 
 @spec
@@ -454,16 +502,17 @@ def rows_ok(VBR, VRO, i, j, M):
 @spec
 def cols_ok(VBO, VRO, A1, A2):
     """vars_by_order (as far as C13 needs it): every listed variable is one of ours"""
-    return forall(lambda o, q: implies(o in VBO and 0 <= q and q < len(VBO[o]), ours(VBO[o][q], A1, A2)))
+    return (keys_ok(VBO)
+            and forall(lambda o, q: implies(o in VBO and 0 <= q and q < len(VBO[o]), ours(VBO[o][q], A1, A2))))
 
 
 @spec
 def region_cons(P, VRO, n, M):
-    """C02 (5a): constraint a < n is  sum_o x_a_o == 1"""
-    return forall(lambda a: implies(0 <= a and a < n,
-                                    P.cons[a].expr.kind == 3 and P.cons[a].sense == 0 and P.cons[a].rhs == 1
-                                    and len(P.cons[a].expr.items) == M
-                                    and forall(lambda o: implies(0 <= o and o < M, P.cons[a].expr.items[o] is VRO[(a, o)]))))
+    """C02 (5a): constraint a < n is  sum_o x_a_o == 1  (two flat clauses; the second is instantiated at items only)"""
+    return (forall(lambda a: implies(0 <= a and a < n, P.cons[a].expr.kind == 3 and P.cons[a].sense == 0 and P.cons[a].rhs == 1
+                                     and len(P.cons[a].expr.items) == M))
+            and forall(lambda a, o: implies(0 <= a and a < n and 0 <= o and o < M, P.cons[a].expr.items[o] is VRO[(a, o)]),
+                       pats=["ident(P.cons[a].expr.items[o])"]))
 
 
 @spec
@@ -532,10 +581,10 @@ _ENS_LABELS = {0: "length", 1: "sequence", 2: "lossless", 3: "fresh"}
 _REQ = ["valid(self.entries)", "levels30(self)", "degree30(self)"]
 
 _VF = "vars_fwd(A1, frontier(), GI, GJ, var_by_region_order, region_by_var, regions, {i}, {j}, max_order)"
+_VN = "vars_named(A1, frontier(), GI, GJ)"
 _VB = "vars_bwd(A1, frontier(), GI, GJ, var_by_region_order, {i}, {j}, max_order)"
-_VAR_FIELDS = ["LpVariable.name", "LpVariable.lo", "LpVariable.hi", "LpVariable.cat"]
+_VAR_FIELDS = ["LpVariable.name", "LpVariable.lo", "LpVariable.hi", "LpVariable.integer"]
 _PROB_FIELDS = ["LpProblem.cons", "LpProblem.objective", "LpProblem.has_objective"]
-_PROB_TOUCH = {f: ["P0"] for f in _PROB_FIELDS}
 _PROB_INV = ["problem is P0", "objective_ok(P0, A1, A2)"]
 _ADJ_INV = _PROB_INV + ["same_graph(graph, G0)", "len(P0.cons) >= len(regions)",
                         "region_cons(P0, var_by_region_order, len(regions), max_order)",
@@ -552,7 +601,9 @@ class convert_to_dot_bracket:
     requires = _REQ
     returns = "DotBracket"
     raises = []
-    modifies = ["LpVariable.varValue"]
+    # (the LpProblem fields are written on the new problem object only; they are declared here instead of being framed in the
+    # loops, because frame facts over the nested constraint lists are array-of-array equalities that slow every later proof)
+    modifies = ["LpVariable.varValue"] + _PROB_FIELDS
     ensures = _ENS + ["implies(is_none(solver) or RAISED or (SOLVED and STATUS != 1), VIA_FCFS)"]
     ensures_labels = {**_ENS_LABELS, 4: "fcfs-when-no-optimum"}
     locals = {"graph": "dict[int,set[int]]", "variables": "list[LpVariable]", "vars_by_region": "dict[int,list[LpVariable]]",
@@ -561,30 +612,31 @@ class convert_to_dot_bracket:
     defaultdicts = ["graph", "vars_by_region", "vars_by_order"]
     # ghost results: what happened inside (set by the ghost blocks below)
     ghost_returns = {"RAISED": "bool", "SOLVED": "bool", "STATUS": "int", "VIA_FCFS": "bool"}
-    ghost_entry = ["let RAISED = False", "let SOLVED = False", "let STATUS = 0", "let VIA_FCFS = False"]
+    ghost_entry = ["let RAISED = False", "let SOLVED = False", "let STATUS = 0", "let VIA_FCFS = False", "mark ENTRY"]
     loops = {
         # for i, j in itertools.combinations(range(len(regions)), 2)
-        0: {"index": "c0", "inv": ["graph_ok(graph, regions)", "graph_upto(graph, regions, combinations_pos, c0)"]},
+        0: {"index": "c0", "inv": ["graph_ok(graph, regions)", "graph_upto(graph, regions, combinations_pos, c0)",
+                                   "keys_ok(graph)", "graph_pos(graph, GPOS)"]},
         # for i in range(len(regions)) / for j in range(max_order): the decision variables
-        1: {"allocates": _VAR_FIELDS, "inv": ["frontier() >= A1", _VF.format(i="i", j="0"), _VB.format(i="i", j="0"),
+        1: {"allocates": _VAR_FIELDS, "inv": ["frontier() >= A1", _VF.format(i="i", j="0"), _VB.format(i="i", j="0"), _VN,
                                               "rows_ok(vars_by_region, var_by_region_order, i, 0, max_order)",
                                               "cols_ok(vars_by_order, var_by_region_order, A1, frontier())"]},
-        2: {"allocates": _VAR_FIELDS, "inv": ["frontier() >= A1", _VF.format(i="i", j="j"), _VB.format(i="i", j="j"),
+        2: {"allocates": _VAR_FIELDS, "inv": ["frontier() >= A1", _VF.format(i="i", j="j"), _VB.format(i="i", j="j"), _VN,
                                               "rows_ok(vars_by_region, var_by_region_order, i, j, max_order)",
                                               "cols_ok(vars_by_order, var_by_region_order, A1, frontier())"]},
         # for order, vars in vars_by_order.items() / for var in vars: the objective terms
         3: {"index": "c3", "inv": ["forall(lambda q: implies(0 <= q and q < len(terms), ours(terms[q].var, A1, A2)))"]},
         4: {"index": "c4", "inv": ["forall(lambda q: implies(0 <= q and q < len(terms), ours(terms[q].var, A1, A2)))"]},
         # for region_vars in vars_by_region.values(): one level per region
-        5: {"index": "c5", "writes": _PROB_FIELDS, "touches": _PROB_TOUCH,
+        5: {"index": "c5", "writes": _PROB_FIELDS,
             "inv": _PROB_INV + ["len(P0.cons) == c5", "region_cons(P0, var_by_region_order, c5, max_order)"]},
         # for i in graph.keys() / for j in graph[i] / for order in range(max_order): adjacent regions on different levels
-        6: {"index": "c6", "writes": _PROB_FIELDS, "touches": _PROB_TOUCH, "inv": _ADJ_INV},
-        7: {"index": "c7", "seq": "S7", "writes": _PROB_FIELDS, "touches": _PROB_TOUCH,
+        6: {"index": "c6", "writes": _PROB_FIELDS, "inv": _ADJ_INV},
+        7: {"index": "c7", "seq": "S7", "writes": _PROB_FIELDS,
             "inv": _ADJ_INV + ["i in G0 and len(S7) >= 0",
                                "forall(lambda q: implies(0 <= q and q < len(S7), S7[q] in G0[i]))",
                                "forall(lambda q, o: implies(0 <= q and q < c7 and 0 <= o and o < max_order, (i, S7[q], o) in ADJ))"]},
-        8: {"writes": _PROB_FIELDS, "touches": _PROB_TOUCH,
+        8: {"writes": _PROB_FIELDS,
             "inv": _ADJ_INV + ["i in G0 and j in G0[i] and len(S7) >= 0",
                                "forall(lambda q: implies(0 <= q and q < len(S7), S7[q] in G0[i]))",
                                "forall(lambda q, o: implies(0 <= q and q < c7 and 0 <= o and o < max_order, (i, S7[q], o) in ADJ))",
@@ -600,7 +652,20 @@ class convert_to_dot_bracket:
     }
     ghost = [
         {"when": "before", "at": "return self.fcfs", "label": "fcfs-exit", "do": ["let VIA_FCFS = True"]},
-        {"when": "after", "at": "regions = self.__regions", "label": "regions", "do": ["let GS = __regions_GS"]},
+        # the postcondition of __regions (regions are the stems, every pair in a region) is needed only as precondition of
+        # __make_dot_bracket: set aside until then
+        {"when": "before", "at": "regions = self.__regions", "label": "regions-mark", "do": ["mark RM"]},
+        {"when": "after", "at": "regions = self.__regions", "label": "regions", "do": ["let GS = __regions_GS", "stash RM"]},
+        {"when": "before", "at": "for i, j in itertools.combinations", "label": "graph-positions", "do": ["let GPOS = fill(0, 0)"]},
+        {"when": "before", "at": "graph[i].add(j)", "label": "position-i",
+         "do": ["let GPOS = ite(i in graph, GPOS, upd(GPOS, i, len(list(graph.keys()))))"]},
+        {"when": "before", "at": "graph[j].add(i)", "label": "position-j",
+         "do": ["let GPOS = ite(j in graph, GPOS, upd(GPOS, j, len(list(graph.keys()))))"]},
+        {"when": "before", "at": "return self.__make_dot_bracket(regions, [0 for", "label": "no-crossing",
+         "do": ["forall a | assert implies(a in graph, 0 <= GPOS[a] and GPOS[a] < len(list(graph.keys()))) | assert not (a in graph)",
+                "forall a, b | assert implies(0 <= a and a < b and b < len(regions), not cross(regions, a, b))",
+                "forall a, b | assert implies(0 <= a and a < len(regions) and 0 <= b and b < len(regions), not cross(regions, a, b))",
+                "unstash RM"]},
         {"when": "before", "at": "max_order = max(", "label": "level-bound-mark", "do": ["mark LB"]},
         {"when": "after", "at": "max_order = max(", "label": "level-bound",
          "do": ["use degree30_definition(self, regions)",
@@ -626,15 +691,19 @@ class convert_to_dot_bracket:
         {"when": "before", "at": "problem += var_by_region_order", "label": "adjacency-constraint",
          "do": ["let ADJ = dstore(ADJ, (i, j, order), len(P0.cons))"]},
         {"when": "after", "at": "problem.solve(solver)", "label": "solved",
-         "do": ["let SOLVED = True", "let STATUS = P0.status", "use esum_definition(P0)"]},
+         "do": ["let SOLVED = True", "let STATUS = P0.status", "use esum_definition(P0)",
+                "assert all_integer(P0)"]},
         {"when": "before", "at": "logging.warning('POA: failed", "label": "solver-raised", "do": ["let RAISED = True"]},
         {"when": "before", "at": "i, order = map(", "label": "parse-name",
          "do": ["let VI = GI[ident(variable)]", "let VJ = GJ[ident(variable)]", "assert parses_as(name, VI, VJ)",
+                # the parsing statement is checked against the facts about this one name only: every quantified hypothesis
+                # of the path is set aside while it executes (restored right after, see "parsed")
+                "stash ENTRY",
                 # int() of every element of name.split('_')[1:]: stated position-wise (the engine's raise condition quantifies
                 # over the position), numerals unfolded to the regular language only here
                 "assert forall(lambda q: implies(1 <= q and q < 3, numeral(name.split('_')[q])), pats=[\"name.split('_')[q]\"])",
                 "use numeral_definition_all(name.split('_'))"]},
-        {"when": "after", "at": "i, order = map(", "label": "parsed", "do": ["assert i == VI and order == VJ"]},
+        {"when": "after", "at": "i, order = map(", "label": "parsed", "do": ["assert i == VI and order == VJ", "unstash ENTRY"]},
         {"when": "before", "at": "return self.__make_dot_bracket(regions, orders)", "label": "read-back",
          "do": [
              # every region has a variable with value 1 (its one-level constraint holds; sum of 0/1 values: lemma esum_witness)
@@ -642,26 +711,24 @@ class convert_to_dot_bracket:
              "forall a | use esum_witness(P0, a, max_order) | assert implies(0 <= a and a < len(regions), "
              "exists(lambda o: 0 <= o and o < max_order and var_by_region_order[(a, o)].varValue == 1))",
              # ... which problem.variables() lists, so the loop has seen it
-             "forall a, o | assert implies(0 <= a and a < len(regions) and 0 <= o and o < max_order, occurs_at(P0, var_by_region_order[(a, o)], a, o))",
-             "forall a, o | assert implies(0 <= a and a < len(regions) and 0 <= o and o < max_order, "
-             "0 <= variables_pos[ident(var_by_region_order[(a, o)])] and variables_pos[ident(var_by_region_order[(a, o)])] < len(VL) "
-             "and VL[variables_pos[ident(var_by_region_order[(a, o)])]] is var_by_region_order[(a, o)] and GI[ident(var_by_region_order[(a, o)])] == a)",
+             "forall a, o | let IN = 0 <= a and a < len(regions) and 0 <= o and o < max_order "
+             "| assert implies(IN, a < len(P0.cons) and P0.cons[a].expr.kind == 3 and o < len(P0.cons[a].expr.items) "
+             "and P0.cons[a].expr.items[o] is var_by_region_order[(a, o)]) "
+             "| assert implies(IN, listed(P0.cons[a].expr.items[o], VL, variables_pos)) "
+             "| assert implies(IN, listed(var_by_region_order[(a, o)], VL, variables_pos) and GI[ident(var_by_region_order[(a, o)])] == a)",
              "forall a, o | assert implies(0 <= a and a < len(regions) and 0 <= o and o < max_order and var_by_region_order[(a, o)].varValue == 1, "
              "var_by_region_order[(a, orders[a])].varValue == 1)",
              "forall a | assert implies(0 <= a and a < len(regions), var_by_region_order[(a, orders[a])].varValue == 1)",
-             # crossing regions: the adjacency constraint of the level of the first one
-             "forall a, b | assert implies(0 <= a and a < len(regions) and 0 <= b and b < len(regions) and cross(regions, a, b), a in G0 and b in G0[a])",
-             "forall a | assert implies(a in G0, exists(lambda p: 0 <= p and p < len(list(G0.keys())) and list(G0.keys())[p] == a))",
+             # crossing regions: the adjacency constraint of the level of the first one (one chain over the same a, b)
+             "forall a | assert implies(a in G0, 0 <= GPOS[a] and GPOS[a] < len(list(G0.keys())) and list(G0.keys())[GPOS[a]] == a)",
              "forall a, b, o | assert implies(a in G0 and b in G0[a] and 0 <= o and o < max_order, (a, b, o) in ADJ)",
-             "forall a, b | assert implies(0 <= a and a < len(regions) and 0 <= b and b < len(regions) and cross(regions, a, b), "
-             "(a, b, orders[a]) in ADJ)",
-             "forall a, b | assert implies(0 <= a and a < len(regions) and 0 <= b and b < len(regions) and cross(regions, a, b), "
-             "adj_at(P0, var_by_region_order, ADJ, a, b, orders[a]))",
-             "forall a, b | assert implies(0 <= a and a < len(regions) and 0 <= b and b < len(regions) and cross(regions, a, b), "
-             "var_by_region_order[(a, orders[a])].varValue + var_by_region_order[(b, orders[a])].varValue <= 1)",
-             "forall a, b | assert implies(0 <= a and a < len(regions) and 0 <= b and b < len(regions) and cross(regions, a, b), "
-             "orders[a] != orders[b])",
-             "assert proper(regions, orders)"]},
+             "forall a, b | let CR = 0 <= a and a < len(regions) and 0 <= b and b < len(regions) and cross(regions, a, b) "
+             "| assert implies(CR, a in G0 and b in G0[a]) "
+             "| assert implies(CR, (a, b, orders[a]) in ADJ) "
+             "| assert implies(CR, adj_at(P0, var_by_region_order, ADJ, a, b, orders[a])) "
+             "| assert implies(CR, var_by_region_order[(a, orders[a])].varValue + var_by_region_order[(b, orders[a])].varValue <= 1) "
+             "| assert implies(CR, orders[a] != orders[b])",
+             "assert proper(regions, orders)", "unstash RM"]},
     ]
 
 
@@ -672,7 +739,7 @@ class dot_bracket:
     requires = _REQ
     returns = "DotBracket"
     raises = []
-    modifies = ["LpSolver.msg", "LpVariable.varValue"]
+    modifies = ["LpSolver.msg", "LpVariable.varValue"] + _PROB_FIELDS
     ensures = _ENS
     ensures_labels = _ENS_LABELS
 
